@@ -162,6 +162,7 @@ type deferred struct {
 }
 
 type State struct {
+	inlineResult Value // results of an inlined callee at its return (inline.go)
 	enc    *Enc
 	pc     []Term
 	regs   map[ssa.Value]Value
